@@ -464,7 +464,21 @@ func checkC14(r *Run) {
 
 func checkC16(r *Run) {
 	type mk = func() *descgen.Entry
-	cfgs := []mk{descgen.K1, descgen.K9}
+	cfgs := []mk{descgen.K1, descgen.K9,
+		// list entries written with the struct package as a prefix name nothing (on either channel)
+		func() *descgen.Entry {
+			e := descgen.K5()
+			c := e.Cfg
+			c.DefaultPackageName, c.TargetPackageName = "example.com/api/structs", "tfschema"
+			occ := descgen.Occurrences(e.File, c.Types)
+			q := func(i int) string { return c.DefaultPackageName + "." + occ[(i*3)%len(occ)].Path }
+			c.Types = append(c.Types, c.DefaultPackageName+"."+e.File.Messages[len(e.File.Messages)-1].Name)
+			c.ExcludeFields = append(c.ExcludeFields, q(1))
+			c.ComputedFields = append(c.ComputedFields, q(2), occ[1].Path)
+			c.RequiredFields = append(c.RequiredFields, q(3))
+			c.SensitiveFields = append(c.SensitiveFields, q(4), occ[2].Path)
+			return descgen.Rename(e, "k5qualified")
+		}}
 	nr := r.pick(6, 78)
 	for i := 0; i < nr; i++ {
 		i := i
@@ -841,6 +855,11 @@ func checkC18(r *Run) {
 					continue
 				}
 				curKind = kind
+				// the offending field has an UpperCamel or a lower_snake proto name
+				fname := "ZzUnmappable"
+				if (pi+ki)%2 == 1 {
+					fname = "zz_unmappable"
+				}
 				build := func(excl bool, name string, exclPathsOf ...string) *pipeline.Case {
 					e := m()
 					strip(e)
@@ -848,20 +867,20 @@ func checkC18(r *Run) {
 					var f *ir.Field
 					switch kind {
 					case "time-without-time_type", "time-without-time_type/duration_type-set":
-						f = descgen.F("ZzUnmappable", descgen.TS())
+						f = descgen.F(fname, descgen.TS())
 					case "duration-without-duration_type", "duration-without-duration_type/time_type-set":
-						f = descgen.F("ZzUnmappable", descgen.Dur())
+						f = descgen.F(fname, descgen.Dur())
 					default:
-						f = descgen.F("ZzUnmappable", descgen.MapOf(), descgen.KeyT(ir.Int32))
+						f = descgen.F(fname, descgen.MapOf(), descgen.KeyT(ir.Int32))
 					}
 					f.Number = 900
 					msg.Fields = append(msg.Fields, f)
 					if excl {
-						e.Cfg.ExcludeFields = append(e.Cfg.ExcludeFields, pos+".ZzUnmappable")
+						e.Cfg.ExcludeFields = append(e.Cfg.ExcludeFields, pos+"."+fname)
 					}
 					for _, root := range exclPathsOf {
 						for _, o := range descgen.Occurrences(e.File, []string{root}) {
-							if o.Field.Name == "ZzUnmappable" {
+							if o.Field.Name == fname {
 								e.Cfg.ExcludeFields = append(e.Cfg.ExcludeFields, o.Path)
 							}
 						}
